@@ -146,13 +146,15 @@ class Ctx:
         d = object.__setattr__
         d(self, "_e", eng), d(self, "_st", st), d(self, "_old", old), d(self, "result", result)
         d(self, "args", args or []), d(self, "kw", kw or {}), d(self, "_pre", pre), d(self, "_recv", recv)
-        d(self, "exc", exc), d(self, "_extra", extra or {})
+        d(self, "exc", exc), d(self, "_extra", extra or {}), d(self, "arg_text", [])
 
     @property
     def old(self):
         if self._old is None:
             raise EngineError("no old state in this context")
-        return Ctx(self._e, self._old, recv=self._recv, args=self.args, kw=self.kw, extra=self._extra)
+        cx = Ctx(self._e, self._old, recv=self._recv, args=self.args, kw=self.kw, extra=self._extra)
+        object.__setattr__(cx, "arg_text", self.arg_text)
+        return cx
 
     @property
     def pre(self):
